@@ -633,7 +633,11 @@ def rule_input_misc(facts):
                 if op is None:
                     continue
                 for x in pv.of_local(op["l"]):
-                    if x[0] == "bin" and {fmt_roots(x[2]), fmt_roots(x[3])} == {"arg2", "arg1.last_cursor"}:
+                    if x[0] != "bin":
+                        continue
+                    sides = {fmt_roots(x[2]), fmt_roots(x[3])}
+                    # the cursor against the one `usize` field of the cache that remembers where the reader is (whatever it is called)
+                    if x[0] == "bin" and "arg2" in sides and len(sides) == 2 and all(s_ == "arg2" or re.match(r"^arg1\.\w+$", s_) for s_ in sides):
                         found = True
                         true_t, false_t = t["otherwise"], t["targets"][0][1]
                         if x[1] == "Ne":
